@@ -10,6 +10,8 @@ from ..runner import Sub
 from .c17 import iou_ref
 
 ID = 'C13'
+TECHNIQUE = 'PBT against reference greedy filter and independent rational IoU + partition/idempotence laws; atheris in thorough'
+LEVEL_TEXT = 'Exploration: Exact for the worst-knee filter; IoU decisions inside 4 ulp of t are ambiguous unless exact on dyadic data. Finds counter-examples (shrunk to a replay file); never proves absence.'
 RULE = ('Cases = (curve n >= 3 from families rich in equal heights and flat neighbour triples; ascending '
         'knee list incl. empty, singleton, first/last index; t in [0,1] incl. IoU values that occur on '
         'the curve).  Oracle: filter_worst_knees == reference greedy running minimum (<=), idempotent; '
